@@ -199,3 +199,91 @@ def size_limit(facts):
         else:
             out.append(ob("tdigest.size-limit", key, picks[0].get("loc", fn["pat"]), "discharged", "limit = min(limit at q0, limit at q2)", fn["qname"]))
     return out
+
+
+def interpolation_direction(facts):
+    """get_quantile interpolates between the means of two adjacent centroids with weighted_average(x1, w1, x2, w2) =
+    (x1*w1 + x2*w2) / (w1 + w2).  For the quantile to be non-decreasing in the rank the weight paired with the LEFT mean must shrink
+    as the target weight (rank * total weight) grows, and the one paired with the RIGHT mean must grow: the coefficient of the
+    target weight is negative in w1 and positive in w2 (linear forms through the single-assignment locals).  With the two weights
+    the other way round the estimate runs from the right mean back to the left one inside every gap - quantile(rank) goes down while
+    rank goes up."""
+    import semantics
+    from astu import single_assignment_locals
+    fs = td(facts)
+    out = []
+    wa = [f for f in fs.values() if f["name"] == "weighted_average" and len(f.get("params") or []) == 4]
+    pairing = None
+    if wa:
+        r = semantics.symbolic_return(wa[0], params=True)
+        if r in (C("(((p0*p1)+(p2*p3))/(p1+p3))"),):
+            pairing = "x1~w1"
+        elif r in (C("(((p0*p3)+(p2*p1))/(p1+p3))"),):
+            pairing = "x1~w2"
+    for pat, fn in sorted(fs.items()):
+        if fn["name"] != "get_quantile" or not fn.get("params"):
+            continue
+        sal = single_assignment_locals(fn)
+        rank = fn["params"][0]["d"]
+        tgt = [d for d, ini in sal.items() if any(x.get("k") == "Ref" and x.get("d") == rank for x in _nodes(ini))]
+
+        def coef(e, depth=0):
+            """coefficient of the target weight in e (None: not linear / unknown)"""
+            e = strip_all(e)
+            if not isinstance(e, dict) or depth > 12:
+                return None
+            k = e.get("k")
+            if k == "Paren":
+                return coef(e.get("e"), depth + 1)
+            if k == "Ref":
+                if e.get("d") in tgt:
+                    return 1.0
+                if e.get("d") in sal:
+                    return coef(sal[e["d"]], depth + 1)
+                return 0.0
+            if k in ("Int", "Float", "Member", "Call", "Index", "OpCall", "Bool"):
+                inner = [x for x in _nodes(e) if x.get("k") == "Ref" and (x.get("d") in tgt)]
+                return None if inner else 0.0
+            if k == "Un" and e.get("op") == "-":
+                c = coef(e.get("e"), depth + 1)
+                return None if c is None else -c
+            if k == "Bin" and e.get("op") in ("+", "-"):
+                a, b = coef(e["l"], depth + 1), coef(e["r"], depth + 1)
+                if a is None or b is None:
+                    return None
+                return a + b if e["op"] == "+" else a - b
+            if k == "Bin" and e.get("op") in ("*", "/"):
+                a, b = coef(e["l"], depth + 1), coef(e["r"], depth + 1)
+                lit = strip_all(e["r"])
+                if b == 0.0 and lit.get("k") in ("Int", "Float") and (lit.get("v") or lit.get("f") or 0) > 0 and a is not None:
+                    v = float(lit.get("v") if lit.get("k") == "Int" else lit.get("f"))
+                    return a * v if e["op"] == "*" else a / v
+                if a == 0.0 and b == 0.0:
+                    return 0.0
+                return None
+            return None
+        calls = []
+        walk(fn["body"], lambda n: calls.append(n) if n.get("k") == "Call" and n.get("cname") == "weighted_average" and len(n.get("args", [])) == 4 else None)
+        idx = 0
+        for c in calls:
+            x1, w1, x2, w2 = c["args"]
+            if "get_mean" not in txt(x1) or "get_mean" not in txt(x2):
+                continue      # the tail towards max_ (guarded out by the clamps before it)
+            key = "tdigest::get_quantile:interpolation#%d" % idx
+            idx += 1
+            c1, c2 = coef(w1), coef(w2)
+            if pairing is None or len(tgt) != 1 or c1 is None or c2 is None or c1 == 0 or c2 == 0:
+                out.append(ob("tdigest.interpolation", key, c.get("loc", fn["pat"]), "unrecognised", "cannot relate the interpolation weights `%s`, `%s` to the target weight (helper pairing %s)" % (txt(w1, sal), txt(w2, sal), pairing), fn["qname"]))
+                continue
+            left_w, right_w = (c1, c2) if pairing == "x1~w1" else (c2, c1)
+            if left_w < 0 and right_w > 0:
+                out.append(ob("tdigest.interpolation", key, c.get("loc", fn["pat"]), "discharged", "the weight of the left mean falls and the weight of the right mean grows with the target weight", fn["qname"]))
+            else:
+                out.append(ob("tdigest.interpolation", key, c.get("loc", fn["pat"]), "violated", "between two centroids the left mean is weighted with `%s` (grows with the rank) and the right mean with `%s` (shrinks with the rank): the interpolation runs from the right mean back to the left one inside every gap, so get_quantile is decreasing in the rank there (quantile is not non-decreasing; rank and quantile disagree by up to the gap between adjacent centroids)" % (txt(w1 if pairing == "x1~w1" else w2, sal), txt(w2 if pairing == "x1~w1" else w1, sal)), fn["qname"]))
+    return out
+
+
+def _nodes(n):
+    acc = []
+    walk(n, lambda x: acc.append(x))
+    return acc
